@@ -305,3 +305,322 @@ pub const SPEC_STATIC_TABLE: [(&[u8], &[u8]); 99] = [
     (b"x-frame-options", b"deny"), // 97
     (b"x-frame-options", b"sameorigin"), // 98
 ];
+
+// ------------------------------------------------------------------------------------------------
+// C15 (builder kaniC) — RFC 7541 §5.1 prefixed integers; RFC 7541 Appendix B Huffman code and the
+// §5.2 end-of-string rule.  Names: spec_prefix_int_*, SpecPrefixInt, SPEC_HUFF_*, spec_huff_*, SpecHuff*.
+
+/// What the first octets of `s` mean as an integer with an N-bit prefix (RFC 7541 §5.1).
+#[derive(Debug, PartialEq, Eq, Clone, Copy)]
+pub enum SpecPrefixInt {
+    /// a complete encoding: bits above the prefix in the first octet, the exact value, octets used
+    Value { flags: u8, value: u64, used: usize },
+    /// `s` ends before the octet whose continuation bit is clear
+    Truncated,
+    /// not representable: exact value above u64::MAX, or more than SPEC_PREFIX_INT_MAX_CONT continuation
+    /// octets ("encodings that exceed implementation limits -- in value or octet length -- MUST be
+    /// treated as decoding errors")
+    TooBig,
+}
+/// ceil(64 / 7): the smallest octet-length limit under which every u64 is decodable for every prefix size
+/// (value - (2^N - 1) can need all 64 bits when N = 8 ... 1).
+pub const SPEC_PREFIX_INT_MAX_CONT: usize = 10;
+
+/// RFC 7541 §5.1 decoding pseudo-code, the running value kept exactly (u128), limits applied at the end.
+pub fn spec_prefix_int_dec(n: u8, s: &[u8]) -> SpecPrefixInt {
+    if s.is_empty() {
+        return SpecPrefixInt::Truncated;
+    }
+    let two_n: u16 = 1u16 << n; // 2^N, N in 1..=8
+    let prefix = (s[0] as u16) % two_n;
+    let flags = ((s[0] as u16) / two_n) as u8;
+    if prefix < two_n - 1 {
+        return SpecPrefixInt::Value { flags, value: prefix as u64, used: 1 };
+    }
+    let mut i: u128 = (two_n - 1) as u128;
+    let mut pow: u128 = 1; // 2^M
+    let mut k: usize = 0; // continuation octets read
+    loop {
+        if k == SPEC_PREFIX_INT_MAX_CONT {
+            return SpecPrefixInt::TooBig; // ten octets, all with the continuation bit
+        }
+        if 1 + k >= s.len() {
+            return SpecPrefixInt::Truncated;
+        }
+        let b = s[1 + k];
+        i += ((b % 128) as u128) * pow; // I = I + (B & 127) * 2^M
+        pow *= 128; // M = M + 7
+        k += 1;
+        if b < 128 {
+            break;
+        }
+    }
+    if i > u64::MAX as u128 {
+        SpecPrefixInt::TooBig
+    } else {
+        SpecPrefixInt::Value { flags, value: i as u64, used: 1 + k }
+    }
+}
+
+/// RFC 7541 §5.1 encoding pseudo-code.  `flags` are the 8-N bits above the prefix in the first octet.
+pub fn spec_prefix_int_enc(n: u8, flags: u8, value: u64) -> ([u8; 11], usize) {
+    let two_n: u64 = 1u64 << n;
+    let hi: u8 = ((flags as u64 * two_n) % 256) as u8;
+    let mut out = [0u8; 11];
+    if value < two_n - 1 {
+        out[0] = hi + value as u8;
+        return (out, 1);
+    }
+    out[0] = hi + (two_n - 1) as u8;
+    let mut i = value - (two_n - 1);
+    let mut k = 1;
+    while i >= 128 {
+        out[k] = (i % 128) as u8 + 128;
+        i /= 128;
+        k += 1;
+    }
+    out[k] = i as u8;
+    (out, k + 1)
+}
+
+/// RFC 7541 Appendix B: code length in bits of symbols 0..=255 and EOS (index 256).
+/// Only the lengths are transcribed; the codes are derived (canonical Huffman code: codes are handed out
+/// in increasing (length, symbol) order).  `SPEC_HUFF_TABLE_OK` below checks the per-length symbol counts,
+/// the Kraft equality, EOS = 30 ones and prefix-freeness at compile time.
+pub const SPEC_HUFF_LEN: [u8; 257] = [
+    // 0x00 - 0x1f
+    13, 23, 28, 28, 28, 28, 28, 28, 28, 24, 30, 28, 28, 30, 28, 28,
+    28, 28, 28, 28, 28, 28, 30, 28, 28, 28, 28, 28, 28, 28, 28, 28,
+    // ' '  !   "   #   $   %   &   '   (   )   *   +   ,   -   .   /
+    6, 10, 10, 12, 13, 6, 8, 11, 10, 10, 8, 11, 8, 6, 6, 6,
+    // 0  1  2  3  4  5  6  7  8  9  :  ;  <   =  >   ?
+    5, 5, 5, 6, 6, 6, 6, 6, 6, 6, 7, 8, 15, 6, 12, 10,
+    // @  A  B  C  D  E  F  G  H  I  J  K  L  M  N  O
+    13, 6, 7, 7, 7, 7, 7, 7, 7, 7, 7, 7, 7, 7, 7, 7,
+    // P  Q  R  S  T  U  V  W  X  Y  Z  [   \   ]   ^   _
+    7, 7, 7, 7, 7, 7, 7, 7, 8, 7, 8, 13, 19, 13, 14, 6,
+    // `   a  b  c  d  e  f  g  h  i  j  k  l  m  n  o
+    15, 5, 6, 5, 6, 5, 6, 6, 6, 5, 7, 7, 6, 6, 6, 5,
+    // p  q  r  s  t  u  v  w  x  y  z  {   |   }   ~   DEL
+    6, 7, 6, 5, 5, 6, 7, 7, 7, 7, 7, 15, 11, 14, 13, 28,
+    // 0x80 - 0x8f
+    20, 22, 20, 20, 22, 22, 22, 23, 22, 23, 23, 23, 23, 23, 24, 23,
+    // 0x90 - 0x9f
+    24, 24, 22, 23, 24, 23, 23, 23, 23, 21, 22, 23, 22, 23, 23, 24,
+    // 0xa0 - 0xaf
+    22, 21, 20, 22, 22, 23, 23, 21, 23, 22, 22, 24, 21, 22, 23, 23,
+    // 0xb0 - 0xbf
+    21, 21, 22, 21, 23, 22, 23, 23, 20, 22, 22, 22, 23, 22, 22, 23,
+    // 0xc0 - 0xcf
+    26, 26, 20, 19, 22, 23, 22, 25, 26, 26, 26, 27, 27, 26, 24, 25,
+    // 0xd0 - 0xdf
+    19, 21, 26, 27, 27, 26, 27, 24, 21, 21, 26, 26, 28, 27, 27, 27,
+    // 0xe0 - 0xef
+    20, 24, 20, 21, 22, 21, 21, 23, 22, 22, 25, 25, 24, 24, 26, 23,
+    // 0xf0 - 0xff
+    26, 27, 26, 26, 27, 27, 27, 27, 27, 28, 27, 27, 27, 27, 27, 26,
+    // EOS
+    30,
+];
+pub const SPEC_HUFF_EOS: usize = 256;
+pub const SPEC_HUFF_MAXLEN: u32 = 30;
+
+/// Canonical code assignment from the lengths alone.
+pub const fn spec_huff_codes() -> [u32; 257] {
+    let mut codes = [0u32; 257];
+    let mut next: u32 = 0;
+    let mut len: u32 = 1;
+    while len <= SPEC_HUFF_MAXLEN {
+        let mut sym = 0;
+        while sym < 257 {
+            if SPEC_HUFF_LEN[sym] as u32 == len {
+                codes[sym] = next;
+                next += 1;
+            }
+            sym += 1;
+        }
+        if len < SPEC_HUFF_MAXLEN {
+            next <<= 1;
+        }
+        len += 1;
+    }
+    codes
+}
+pub const SPEC_HUFF_CODE: [u32; 257] = spec_huff_codes();
+
+/// RFC 7541 App. B per-length symbol counts (EOS included), used only to validate the transcription.
+pub const SPEC_HUFF_COUNTS: [(u8, u32); 21] = [
+    (5, 10), (6, 26), (7, 32), (8, 6), (10, 5), (11, 3), (12, 2), (13, 6), (14, 2), (15, 3), (19, 3),
+    (20, 8), (21, 13), (22, 26), (23, 29), (24, 12), (25, 4), (26, 15), (27, 19), (28, 29), (30, 4),
+];
+pub const fn spec_huff_table_ok() -> bool {
+    // per-length counts
+    let mut total = 0;
+    let mut kraft: u64 = 0; // sum of 2^(30-len)
+    let mut len: u32 = 0;
+    while len <= 32 {
+        let mut n = 0;
+        let mut sym = 0;
+        while sym < 257 {
+            if SPEC_HUFF_LEN[sym] as u32 == len {
+                n += 1;
+            }
+            sym += 1;
+        }
+        let mut want = 0;
+        let mut j = 0;
+        while j < SPEC_HUFF_COUNTS.len() {
+            if SPEC_HUFF_COUNTS[j].0 as u32 == len {
+                want = SPEC_HUFF_COUNTS[j].1;
+            }
+            j += 1;
+        }
+        if n != want {
+            return false;
+        }
+        total += n;
+        if n > 0 {
+            kraft += (n as u64) << (30 - len);
+        }
+        len += 1;
+    }
+    if total != 257 || kraft != 1u64 << 30 {
+        return false;
+    }
+    // EOS is thirty ones
+    if SPEC_HUFF_CODE[SPEC_HUFF_EOS] != 0x3fff_ffff {
+        return false;
+    }
+    // prefix-free: no code is a prefix of another one
+    let mut a = 0;
+    while a < 257 {
+        let la = SPEC_HUFF_LEN[a] as u32;
+        if la < 32 && (SPEC_HUFF_CODE[a] >> la) != 0 {
+            return false; // code does not fit its length
+        }
+        let mut b = 0;
+        while b < 257 {
+            let lb = SPEC_HUFF_LEN[b] as u32;
+            if a != b && la <= lb && (SPEC_HUFF_CODE[b] >> (lb - la)) == SPEC_HUFF_CODE[a] {
+                return false;
+            }
+            b += 1;
+        }
+        a += 1;
+    }
+    true
+}
+pub const SPEC_HUFF_TABLE_OK: bool = spec_huff_table_ok();
+const _: () = assert!(SPEC_HUFF_TABLE_OK);
+
+/// bit `i` (0 = most significant bit of s[0]) of the big-endian bit string `s`
+pub fn spec_bit(s: &[u8], i: usize) -> u8 {
+    (s[i / 8] >> (7 - (i % 8))) & 1
+}
+/// bits [pos, pos+len) of `s` as a number, len <= 32, pos+len <= 8*s.len()
+pub fn spec_bits(s: &[u8], pos: usize, len: usize) -> u32 {
+    let mut v: u32 = 0;
+    let mut j = 0;
+    while j < len {
+        v = v * 2 + spec_bit(s, pos + j) as u32;
+        j += 1;
+    }
+    v
+}
+/// Up to 32 bits starting at bit `pos`, left-aligned in a u32 (missing bits are 0), fetched from at most 5
+/// octets.  Same meaning as `spec_bits(s, pos, 32) `, arithmetic instead of a bit loop (cheap for CBMC).
+pub fn spec_window32(s: &[u8], pos: usize) -> u32 {
+    let first = pos / 8;
+    let mut acc: u64 = 0;
+    let mut j = 0;
+    while j < 5 {
+        acc *= 256;
+        if first + j < s.len() {
+            acc += s[first + j] as u64;
+        }
+        j += 1;
+    }
+    // acc holds 40 bits; drop pos%8 leading ones, keep the next 32
+    ((acc * (1u64 << (pos % 8))) / 256 % (1u64 << 32)) as u32
+}
+
+/// One decoding step at bit position `pos` of `s` (RFC 7541 §5.2).
+#[derive(Debug, PartialEq, Eq, Clone, Copy)]
+pub enum SpecHuffStep {
+    /// the bits at `pos` start with the code of `sym` (0..=255), which is `len` bits long and complete in `s`
+    Sym { sym: u8, len: u32 },
+    /// the bits at `pos` start with the 30-bit EOS code: always an error
+    Eos,
+    /// fewer bits are left than any matching code needs.  `pad_ok` <=> they are at most 7 and all ones
+    /// (the most significant bits of EOS) - the only acceptable end of a Huffman string
+    End { pad_ok: bool },
+}
+pub fn spec_huff_step(s: &[u8], pos: usize) -> SpecHuffStep {
+    let total = s.len() * 8;
+    let avail = total - pos; // pos <= total
+    let w = spec_window32(s, pos);
+    // "for c in 0..=256", written as 17 rows of 16 so that no single loop needs more than 17 unwindings
+    // (Kani's unwind bound also limits the recursion depth of the decoder under test)
+    let mut row = 0;
+    while row < 17 {
+        let mut col = 0;
+        while col < 16 {
+            let c = row * 16 + col;
+            if c < 257 {
+                let l = SPEC_HUFF_LEN[c] as u32;
+                if l as usize <= avail && (w >> (32 - l)) == SPEC_HUFF_CODE[c] {
+                    return if c == SPEC_HUFF_EOS { SpecHuffStep::Eos } else { SpecHuffStep::Sym { sym: c as u8, len: l } };
+                }
+            }
+            col += 1;
+        }
+        row += 1;
+    }
+    // no complete code: the rest is padding
+    let ones = avail < 32 && (avail == 0 || (w >> (32 - avail as u32)) == (1u32 << avail as u32) - 1);
+    SpecHuffStep::End { pad_ok: avail < 8 && ones }
+}
+
+/// Whole-string reference decoder / encoder (Vec-based: for native replay tests only, never run under Kani).
+pub fn spec_huff_decode(s: &[u8]) -> Option<Vec<u8>> {
+    let mut out = Vec::new();
+    let mut pos = 0;
+    loop {
+        match spec_huff_step(s, pos) {
+            SpecHuffStep::Sym { sym, len } => {
+                out.push(sym);
+                pos += len as usize;
+            }
+            SpecHuffStep::Eos => return None,
+            SpecHuffStep::End { pad_ok } => return if pad_ok { Some(out) } else { None },
+        }
+    }
+}
+pub fn spec_huff_encode(s: &[u8]) -> Vec<u8> {
+    let mut out = Vec::new();
+    let mut acc: u8 = 0;
+    let mut n = 0; // bits in acc
+    for &c in s {
+        let l = SPEC_HUFF_LEN[c as usize] as u32;
+        let code = SPEC_HUFF_CODE[c as usize];
+        let mut j = l;
+        while j > 0 {
+            j -= 1;
+            acc = acc * 2 + ((code >> j) & 1) as u8;
+            n += 1;
+            if n == 8 {
+                out.push(acc);
+                acc = 0;
+                n = 0;
+            }
+        }
+    }
+    if n > 0 {
+        while n < 8 {
+            acc = acc * 2 + 1; // pad with the most significant bits of EOS
+            n += 1;
+        }
+        out.push(acc);
+    }
+    out
+}
